@@ -265,3 +265,24 @@ func SSAName(fn *ssa.Function) string {
 	s = strings.ReplaceAll(s, ModPath, "gnet")
 	return s
 }
+
+// SSAHostName is SSAName, except that an unexported function outside the baseline which is used by exactly
+// one baseline function (a helper a maintainer split off) answers with that function's name: tables
+// that grant a named baseline function an exception cover the statements moved into its helper.
+func SSAHostName(fn *ssa.Function) string {
+	if fn == nil {
+		return "?"
+	}
+	top := EnclosingTop(fn)
+	o, _ := top.Object().(*types.Func)
+	h := helperHost[o]
+	if o == nil || h == nil || top.Prog == nil {
+		return SSAName(fn)
+	}
+	if hf := top.Prog.FuncValue(h); hf != nil {
+		if top == fn {
+			return SSAName(hf)
+		}
+	}
+	return SSAName(fn)
+}
